@@ -41,11 +41,12 @@ THEOREM_BACKED = ("dedupValues_preserves / _no_duplicates / _idempotent, dedupPo
                   "_idempotent, dedup_no_identical_points, cleanup_describes / _describes_exact / _survivors_spec / "
                   "_valid / _nothing_unused (all 16 option subsets), strips_describe_unconditional (both modes), "
                   "buildMesh_describes, buildPointCloud_describes — for every valid input of the model; "
-                  "oracle_accepts_dedupValues / _dedupPointIds / _dedupBoth / _buildMesh / _buildPointCloud: the clauses "
-                  "this check demands of the implementation's result are implied by those theorems")
+                  "oracle_accepts_dedupValues / _dedupPointIds / _dedupBoth / _buildMesh / _buildPointCloud / _cleanup / "
+                  "_strips: every clause this check demands of the implementation's result is implied by those "
+                  "theorems; cleanup_idempotent")
 TRUSTED_EXTRA = ["harness/ops_meshtools.cc (calls of the real utilities, canonical dump)",
                  "lean/DracoModel/C14Verify.lean (executable statement of the clauses evaluated on the implementation's "
-                 "result; tied to the theorems for the deduplications and builders, not for clean-up / strips)"]
+                 "result; proved to hold of the model's result for every operation)"]
 CORRESPONDENCE_ONLY = ("that the model equals the real classes (hash containers, in-place buffer compaction, template "
                        "dispatch over data types) is tied by the random cases, not proved")
 EXPLANATION = ("full Lean proofs on the executable model of every clause for the attribute types the deduplication "
